@@ -432,6 +432,38 @@ def run_witness(binpath, w):
             return {"cmd": "%s / run <%d programs, %d rewritten variants>" % ((w.get("command") or ["reftest-wrap-in-dbg"])[0], len(jobs), n_wrapped), "exit": 0, "stdout": "", "stderr": "",
                     "reproduced": bool(bad_items) or n_wrapped < w.get("min_inputs", 1), "why": ("; ".join(bad_items[:4]) if bad_items else "only %d wrapped variants" % n_wrapped)[:1800],
                     "n_inputs": n_wrapped, "failing_inputs": failing[:6]}
+        elif kind == "project-corpus":
+            # several small multi-file projects; for each: `garden <cmd> <main>` in its own directory must not crash or
+            # hang, and its output must (not) contain the listed texts
+            bad_items, failing = [], []
+            for i, it in enumerate(w["input"]):
+                d = os.path.join(tmpdir, "proj%d" % i)
+                os.makedirs(d, exist_ok=True)
+                for name, text in it["files"].items():
+                    with open(os.path.join(d, name), "w", encoding="utf-8") as fh:
+                        fh.write(text)
+                for c in it.get("cmds", ["check", "run"]):
+                    try:
+                        p = subprocess.run([binpath, c, os.path.join(d, it["main"])], capture_output=True, text=True, timeout=30, cwd=d, stdin=subprocess.DEVNULL)
+                    except subprocess.TimeoutExpired:
+                        bad_items.append("%s: `%s` does not finish" % (it.get("what", i), c))
+                        failing.append(it)
+                        continue
+                    o = p.stdout + p.stderr
+                    if p.returncode == 101 or p.returncode < 0 or "panicked at" in o:
+                        bad_items.append("%s: `%s` crashed: %s" % (it.get("what", i), c, ([l for l in o.splitlines() if "panicked" in l or "overflow" in l] or [""])[0][:160]))
+                        failing.append(it)
+                        continue
+                    for t in it.get(c + "_contains", []):
+                        if t not in o:
+                            bad_items.append("%s: `%s` output lacks %r: %r" % (it.get("what", i), c, t, o[-200:]))
+                            failing.append(it)
+                    for t in it.get(c + "_not_contains", []):
+                        if t in o:
+                            bad_items.append("%s: `%s` output contains %r" % (it.get("what", i), c, t))
+                            failing.append(it)
+            return {"cmd": "check / run <%d projects>" % len(w["input"]), "exit": 0, "stdout": "", "stderr": "",
+                    "reproduced": bool(bad_items), "why": "; ".join(bad_items[:4])[:1600], "n_inputs": len(w["input"]), "failing_inputs": failing[:4]}
         elif kind == "check-matrix":
             # a list of small programs, each with the verdict `garden check` must give
             # (expect_error: True = at least one error diagnostic, False = none)
